@@ -566,6 +566,7 @@ var lcaPerts = []string{
 	"common-1", "common+1", "reanchor", "ev-ts-ns", "ev-ts-other-height", "total",
 	"byz-swap", "byz-drop", "byz-add-member", "byz-add-outsider", "byz-power", "byz-addr",
 	"hdr-field-noresign", "hdr-derived-field-resign", "hdr-free-field-resign", "round-noresign", "round-resign",
+	"foreign-chain-block", "foreign-chain-block", "foreign-chain-header-signed-here", "signed-for-foreign-chain",
 	"commit-height", "commit-psh", "sig-corrupt", "sig-corrupt", "sig-ts", "sig-flag-nil", "sig-flag-absent",
 	"sig-addr", "valset-power", "valset-drop", "same-as-canonical", "lunatic-at-common", "alias-frame",
 }
@@ -668,7 +669,9 @@ func (w *world) perturbLCA(t *rapid.T, gen *types.LightClientAttackEvidence, ctx
 		e.ByzantineValidators[rapid.IntRange(0, len(e.ByzantineValidators)-1).Draw(t, "bai")].Address = lib.Key(outsiderKey).PubKey().Address()
 	case "hdr-field-noresign":
 		h := e.ConflictingBlock.Header
-		switch rapid.SampledFrom([]string{"app", "data", "time", "height", "proposer"}).Draw(t, "hf") {
+		switch rapid.SampledFrom([]string{"app", "data", "time", "height", "proposer", "chainid"}).Draw(t, "hf") {
+		case "chainid":
+			h.ChainID += "x"
 		case "app":
 			h.AppHash = append(h.AppHash, 1)
 		case "data":
@@ -723,6 +726,22 @@ func (w *world) perturbLCA(t *rapid.T, gen *types.LightClientAttackEvidence, ctx
 			return e, kind + na
 		}
 		return ne, kind
+	case "foreign-chain-block", "foreign-chain-header-signed-here", "signed-for-foreign-chain":
+		// the same keys also validate another chain (testnet, the chain before a fork that renamed it):
+		//  - a block of that chain, genuinely signed for it, presented as an attack on this chain;
+		//  - a header naming that chain but signed as a vote of this chain;
+		//  - this chain's forged header with signatures that were made for the other chain.
+		other := rapid.SampledFrom([]string{w.chainID + "-2", "other-net", "v"}).Draw(t, "otherchain")
+		hh := *gen.ConflictingBlock.Header
+		signFor := other
+		if kind != "signed-for-foreign-chain" {
+			hh.ChainID = other
+		}
+		if kind == "foreign-chain-header-signed-here" {
+			signFor = w.chainID
+		}
+		e.ConflictingBlock = lib.ForgeLightBlock(signFor, hh, gen.ConflictingBlock.ValidatorSet, false, gen.ConflictingBlock.Commit.Round,
+			ctx.spec.Signers, ctx.spec.NilSigners)
 	case "round-noresign":
 		cm.Round++
 	case "round-resign":
